@@ -120,13 +120,15 @@ Definition holds_finite_slots (i o : val) : bool :=
           (as_l (nth_val 1 o)).
 
 (* valid: input (z<ttl> n<auto> gciopt (op ...));
-   op = (n0 z<now> idopt n<tok> topics) | (n1 z<now> idopt topics script) | (n2 z<now>) *)
+   op = (n0 z<now> idopt n<tok> topics) | (n1 z<now> idopt topics script) | (n2 z<now>)
+      | (n3 z<now> z<g>)  the user assigns GCInterval := g *)
 Definition dec_vop (op : val) : vop :=
   let now := as_z (nth_val 1 op) in
   match as_n (nth_val 0 op) with
   | 0 => VPut now (dec_field (nth_val 2 op)) (as_n (nth_val 3 op)) (dec_topics (nth_val 4 op))
   | 1 => VReplay now (dec_field (nth_val 2 op)) (dec_topics (nth_val 3 op)) (dec_script (nth_val 4 op))
-  | _ => VGC now
+  | 2 => VGC now
+  | _ => VSetGCI now (as_z (nth_val 2 op))
   end.
 
 Definition run_valid (i : val) : val :=
